@@ -194,39 +194,63 @@ def r5_collection(chk: Check):
     tree = chk.tree
     f = tree.func("core.objects", "updatedependencies")
     p = f.node.args.args[1].arg
-    rows = {}
-    s = [x for x in f.node.body if isinstance(x, ast.If)]
-    if len(s) != 1:
-        raise Undecided("updatedependencies: expected a single isinstance dispatch chain")
-    node = s[0]
-    while True:
-        var, kinds = _isinstance_kinds(node.test)
-        if var != p:
-            raise Undecided(f"updatedependencies: unmodelled dispatch test {src(node.test)}")
-        calls = [c for b in node.body for c in walk_local(b) if isinstance(c, ast.Call)]
-        rec = [src(c.args[1]) for c in calls if dotted(c.func) == "updatedependencies" and len(c.args) > 1]
-        meth = [c for c in calls if src(c.func).endswith(".__xpm__.updatedependencies")]
-        loops = [b for b in node.body if isinstance(b, ast.For)]
-        for k in kinds:
-            rows[k] = {"rec": rec, "method": bool(meth), "loops": [src(l.iter) for l in loops], "targets": [src(l.target) for l in loops]}
-        if len(node.orelse) == 1 and isinstance(node.orelse[0], ast.If):
-            node = node.orelse[0]
-        else:
-            rows["else"] = {"raise": any(isinstance(x, ast.Raise) for x in node.orelse)}
-            break
+    from ..dispatch import OTHER, kind_table
+
+    def events(n, rd):
+        out = []
+        if n.kind == "for":
+            out.append(f"for {src(n.ast.target)} in {rd.canon(n.ast.iter, n)}")
+        for c in n.calls():
+            if dotted(c.func) == "updatedependencies" and len(c.args) > 1:
+                out.append("rec " + src(c.args[1]))
+            elif src(c.func).endswith(".__xpm__.updatedependencies"):
+                out.append("method " + rd.canon(c.func.value.value, n))
+        return out
+
+    KINDS = ["Config", "list", "set", "dict", "str", "int", "float", "Path", "Enum", OTHER]
+    g0, rd0, table = kind_table(f.node, p, KINDS, events)
     loc = chk.loc(f.module, f.node)
-    chk.require(rows.get("Config", {}).get("method"), chk.fkey(f, "Config"), "a nested configuration is not searched for dependencies", loc)
-    for k in ("list",):
-        r = rows.get(k, {})
-        ok = r.get("loops") == [p] and len(r.get("rec", [])) == 1 and r["rec"][0] == r["targets"][0]
-        chk.require(ok, chk.fkey(f, k), f"elements of a {k} parameter are not each searched for dependencies ({r})", loc)
-    r = rows.get("dict", {})
-    ok = bool(r) and r.get("loops") == [f"{p}.items()"] and len(r.get("rec", [])) >= 1
-    if ok:
-        tg = r["targets"][0].strip("()").split(", ")
-        ok = len(tg) == 2 and tg[1] in r["rec"]
-    chk.require(ok, chk.fkey(f, "dict values"), f"values of a dict parameter are not each searched for dependencies ({r}): an upstream task placed in a Dict[str, Config] would not be waited for", loc)
-    chk.require(rows.get("else", {}).get("raise"), chk.fkey(f, "unknown kinds raise"), "an unknown value kind must raise rather than be skipped", loc)
+
+    def evs(kind):
+        out = []
+        for o in table[kind]:
+            ev = []
+            for e in o.events:
+                if e.startswith("for ") and e in ev:
+                    continue  # the loop head is passed again when the loop ends
+                ev.append(e)
+            out.append((ev, o.end, [u[0] for u in o.unknown if u[2] is None]))
+        return out
+
+    ok = all(ev == [f"method {p}"] and end == "exit" and not unk for ev, end, unk in evs("Config")) and evs("Config")
+    chk.require(ok, chk.fkey(f, "Config"), f"a nested configuration is not searched for dependencies ({evs('Config')})", loc)
+    for k in ("list", "set"):
+        ok = bool(evs(k))
+        for ev, end, unk in evs(k):
+            loops = [e for e in ev if e.startswith("for ")]
+            ok = ok and len(loops) == 1 and loops[0].endswith(f" in {p}") and ev == [loops[0], "rec " + loops[0][4:].split(" in ")[0]] and end == "exit" and not unk
+        chk.require(ok, chk.fkey(f, k), f"elements of a {k} parameter are not each searched for dependencies ({evs(k)})", loc)
+    ok = bool(evs("dict"))
+    for ev, end, unk in evs("dict"):
+        loops = [e for e in ev if e.startswith("for ")]
+        recs = [e[4:] for e in ev if e.startswith("rec ")]
+        good = False
+        if len(loops) >= 1 and end == "exit" and not unk:
+            tgt, it = loops[0][4:].split(" in ", 1)
+            if it == f"{p}.items()":
+                names = tgt.strip("()").split(", ")
+                good = len(names) == 2 and names[1] in recs
+            elif it == f"{p}.values()":
+                good = tgt in recs
+            elif it in (p, f"{p}.keys()"):
+                good = f"{p}[{tgt}]" in recs
+        ok = ok and good
+    chk.require(ok, chk.fkey(f, "dict values"), f"values of a dict parameter are not each searched for dependencies ({evs('dict')}): an upstream task placed in a Dict[str, Config] would not be waited for", loc)
+    for k in ("str", "int", "float", "Path", "Enum"):
+        ok = all(not ev and end == "exit" and not unk for ev, end, unk in evs(k)) and evs(k)
+        chk.require(ok, chk.fkey(f, f"scalar {k}"), f"a {k} value must be accepted without effect ({evs(k)})", loc)
+    ok = all(end == "raise" for ev, end, unk in evs(OTHER)) and evs(OTHER)
+    chk.require(ok, chk.fkey(f, "unknown kinds raise"), "an unknown value kind must raise rather than be skipped", loc)
     # method: pre_tasks, init_tasks unconditionally, then task or argument values
     m = tree.func("core.objects", "ConfigInformation.updatedependencies")
     g = CFG(m.node)
